@@ -56,7 +56,9 @@ func storesIntoField(f *types.Var, sub ...string) Sel {
 
 func runC09(c *Ctx) {
 	rsF := func(f string) *types.Var { return c.field("neutrino", "rescanState", f) }
-	nh := func(f string) *types.Var { return c.field("github.com/btcsuite/btcd/rpcclient", "NotificationHandlers", f) }
+	nh := func(f string) *types.Var {
+		return c.field("github.com/btcsuite/btcd/rpcclient", "NotificationHandlers", f)
+	}
 	prevBlock := func() *types.Var { return c.field(pWire, "BlockHeader", "PrevBlock") }
 	stampHash := func() *types.Var { return c.field("headerfs", "BlockStamp", "Hash") }
 
